@@ -104,6 +104,14 @@ def _board(bid, owner, declarer, plays, k, stats=None):
         got = guard('current_available_cards_in_hand raises', case, b.env.current_available_cards_in_hand, be.SEAT[s])
         _expect(got, hand, led, "table manager's playable set is not the follow-suit set", case)
         _classify(stats, hand, led, 'own hand')
+        # the table manager can be asked about ANY seat's hand at any time (a declarer planning while dummy is on turn,
+        # a defender thinking ahead): always that seat's own cards under the follow-suit rule
+        for o in range(4):
+            if o != s and b.hands[o]:
+                got = guard('current_available_cards_in_hand raises', case, b.env.current_available_cards_in_hand, be.SEAT[o])
+                _expect(got, set(b.hands[o]), led, "table manager's playable set for a seat not on turn is not that seat's follow-suit set",
+                        dict(case, asked_about=A.SEATS[o]))
+                _classify(stats, set(b.hands[o]), led, 'seat not on turn')
         # every other seat as well (what it could play if it were to follow)
         for o, ob in enumerate(b.obs):
             oh = set(b.hands[o])
